@@ -1361,9 +1361,16 @@ impl ASN1Value {
                 if matches![**value, ASN1Value::ElsewhereDeclaredValue { .. }] =>
             {
                 if let ASN1Value::ElsewhereDeclaredValue { identifier, .. } = &**value {
+                    // the governing type first: other ENUMERATED types may use the same identifier
                     if let Some((_, tld)) = tlds
                         .iter()
-                        .find(|(_, tld)| tld.has_enum_value(None, identifier))
+                        .find(|(_, tld)| {
+                            type_name.is_some() && tld.has_enum_value(type_name, identifier)
+                        })
+                        .or_else(|| {
+                            tlds.iter()
+                                .find(|(_, tld)| tld.has_enum_value(None, identifier))
+                        })
                     {
                         **value = ASN1Value::EnumeratedValue {
                             enumerated: tld.name().clone(),
@@ -1379,9 +1386,16 @@ impl ASN1Value {
                     .iter()
                     .any(|(_, tld)| tld.has_enum_value(None, identifier)) =>
             {
+                // the governing type first: other ENUMERATED types may use the same identifier
                 if let Some((_, tld)) = tlds
                     .iter()
-                    .find(|(_, tld)| tld.has_enum_value(None, identifier))
+                    .find(|(_, tld)| {
+                        type_name.is_some() && tld.has_enum_value(type_name, identifier)
+                    })
+                    .or_else(|| {
+                        tlds.iter()
+                            .find(|(_, tld)| tld.has_enum_value(None, identifier))
+                    })
                 {
                     *self = ASN1Value::EnumeratedValue {
                         enumerated: tld.name().clone(),
